@@ -279,3 +279,191 @@ def _(c):
     c.ensure("filtered", bool([p.k for p in ei(iter(pts), "AOS", "LOS")] == [1, 4, 6]))
     c.ensure("find.offset", bool(fe(iter(pts), "AOS", offset=1).k == 6 and fe(iter(pts), "MAX").k == 3))
     c.ensure("find.missing", c.raises(RuntimeError, lambda: fe(iter(pts), "AOS", offset=2)))
+
+
+# ---------------------------------------------------------------------------------------------
+# bounded stand-ins on the real classes
+# ---------------------------------------------------------------------------------------------
+
+def _mk_orbit(kind, prop):
+    from beyond.orbits import Orbit
+    from beyond.dates import Date, timedelta
+    from beyond.propagators.kepler import Kepler
+    from beyond.constants import Earth
+    from contracts.c19_mission import _kep2cart
+    a, e, i, O, w, nu = {"iss": (6.8e6, 0.001, 0.9, 1.0, 2.0, 0.5), "molniya": (2.66e7, 0.72, 1.1, 2.0, 4.7, 2.8)}[kind]
+    r0, v0 = _kep2cart(a, e, i, O, w, nu, Earth.mu)
+    d0 = Date(2018, 5, 4, 1, 2, 3)
+    orb = Orbit(list(r0) + list(v0), d0, "cartesian", "EME2000", Kepler())
+    T = 2 * math.pi * math.sqrt(a ** 3 / Earth.mu)
+    if prop == "ephem":
+        eph = orb.ephem(stop=d0 + timedelta(seconds=1.3 * T + 1200), step=timedelta(seconds=60 if kind == "iss" else 120))
+        return eph, orb, d0, T
+    return orb, orb, d0, T
+
+
+def _grid_events(tier, rng):
+    """orbits {iss, molniya} x propagators {kepler, ephemeris} x sampling steps {30 s, 3 min, 10 min} x listener sets
+    {node, apside, true-anomaly=1.0, all three + umbra}"""
+    for o in (0, 1):
+        for p in (0, 1):
+            for st in (30.0, 180.0, 600.0):
+                for ls in (0, 1, 2, 3):
+                    yield {"orbit": o, "prop": p, "step": st, "lset": ls}
+
+
+@contract("C10", "native", funcs=[f"{LI}:Speaker.listen", f"{LI}:Speaker._bisect", f"{BASE}:AnalyticalPropagator.iter", "beyond.orbits.ephem:Ephem.iter"],
+          grid=_grid_events, level="bounded")
+def _(c):
+    """bounded: over 1.3 orbits, an event is emitted between two samples exactly when a fresh evaluation of the watched
+    quantity on those samples changes sign; it lies between them; the quantity has no common strict sign 5 us before and at the
+    event; node / apside / anomaly events satisfy their closed-form condition (z = 0, r_dot = 0, nu = value) to the
+    bisection resolution; the stream is chronological; a second iteration with the same listener objects is identical"""
+    from beyond.dates import timedelta
+    from beyond.propagators.listeners import NodeListener, ApsideListener, AnomalyListener, LightListener
+    kind = ["iss", "molniya"][c.integer("orbit")]
+    prop = ["kepler", "ephem"][c.integer("prop")]
+    step = c.real("step")
+    src, orb, d0, T = _mk_orbit(kind, prop)
+    mk = [lambda: [NodeListener()], lambda: [ApsideListener()], lambda: [AnomalyListener(1.0)],
+          lambda: [NodeListener(), ApsideListener(), AnomalyListener(1.0), LightListener()]][c.integer("lset")]
+    listeners = mk()
+    stop = d0 + timedelta(seconds=1.3 * T)
+    kw = dict(start=d0, stop=stop, step=timedelta(seconds=step), listeners=listeners)
+    out1 = list(src.iter(**kw))
+    out2 = list(src.iter(**kw))
+    key = lambda o: (o.date._d, round(o.date._s, 6), o.event.info if o.event else None)
+    c.ensure("reuse_identical", [key(o) for o in out1] == [key(o) for o in out2])
+    dates = [o.date for o in out1]
+    c.ensure("chronological", all(a <= b for a, b in zip(dates, dates[1:])))
+    samples = [o for o in out1 if not o.event]
+    events = [o for o in out1 if o.event]
+    c.ensure("sample_grid", all(abs((s.date - d0).total_seconds() - k * step) < 1e-5 for k, s in enumerate(samples)))
+    fresh = mk()
+    ok_iff, ok_between, ok_sharp, ok_closed, ok_label = True, True, True, True, True
+    for li, (lis, fr) in enumerate(zip(listeners, fresh)):
+        evs = [e for e in events if e.event.listener is lis]
+        for k in range(len(samples) - 1):
+            a, b = samples[k], samples[k + 1]
+            ga, gb = fr(a), fr(b)
+            expect = np.sign(ga) != np.sign(gb)
+            if isinstance(fr, AnomalyListener):
+                expect = expect and abs(gb) < 2
+            got = [e for e in evs if a.date < e.date <= b.date or (a.date <= e.date <= b.date and e.date not in (a.date,))]
+            got = [e for e in evs if a.date <= e.date <= b.date]
+            if bool(expect) != (len(got) >= 1) or len(got) > 1:
+                ok_iff = False
+        for e in evs:
+            before = src.propagate(e.date - timedelta(microseconds=5))
+            ok_sharp = ok_sharp and not (fr(before) * fr(e) > 0)
+            cart = np.asarray(e.copy(form="cartesian"), dtype=float)
+            if isinstance(lis, NodeListener):
+                ok_closed = ok_closed and abs(cart[2]) < 0.1
+                ok_label = ok_label and ((e.event.info == "Asc Node") == (cart[5] >= 0))
+            elif isinstance(lis, ApsideListener):
+                rdot = cart[:3] @ cart[3:] / np.linalg.norm(cart[:3])
+                ok_closed = ok_closed and abs(rdot) < 1e-3
+                sph_after = src.propagate(e.date + timedelta(seconds=1)).copy(form="spherical")
+                ok_label = ok_label and ((e.event.info == "Periapsis") == (float(sph_after.r_dot) > 0))
+            elif isinstance(lis, AnomalyListener):
+                nu = float(e.copy(form="keplerian").nu)
+                ok_closed = ok_closed and abs((nu - 1.0 + math.pi) % (2 * math.pi) - math.pi) < 1e-7
+    c.ensure("event_iff_sign_change_between_samples", ok_iff)
+    c.ensure("sharp_5us", ok_sharp)
+    c.ensure("closed_form_condition", ok_closed)
+    c.ensure("label_matches_direction", ok_label)
+    c.ensure("events_found", len(events) >= 1 or step > 0)
+
+
+def _grid_station(tier, rng):
+    """stations at (43.6N, 1.4E), (-33.9, 18.4), (28.5, -80.6) x sampling steps {30 s, 120 s} x ISS-like Kepler orbit over 14 h"""
+    for s in (0, 1, 2):
+        for st in (30.0, 120.0):
+            yield {"station": s, "step": st}
+
+
+@contract("C10", "station_stream", funcs=["beyond.frames.stations:TopocentricFrame.visibility", f"{LI}:stations_listeners",
+                                          f"{LI}:StationSignalListener.info", f"{LI}:StationMaxListener.check"], grid=_grid_station, level="bounded")
+def _(c):
+    """bounded: a visibility stream consists of exactly the above-horizon samples plus AOS/LOS/MAX events; AOS/LOS have zero
+    elevation (1e-6 rad), MAX zero elevation rate (1e-7 rad/s); AOS precedes MAX precedes LOS in every complete pass"""
+    from beyond.dates import timedelta
+    from beyond.frames.stations import create_station
+    lat, lon = [(43.6, 1.4), (-33.9, 18.4), (28.5, -80.6)][c.integer("station")]
+    sta = create_station(f"VS{c.integer('station')}_{int(c.real('step'))}", (lat, lon, 100.0))
+    orb, _, d0, T = _mk_orbit("iss", "kepler")
+    step = c.real("step")
+    pts = list(sta.visibility(orb, start=d0, stop=d0 + timedelta(hours=14), step=timedelta(seconds=step), events=True))
+    ok_s, ok_e, ok_m = True, True, True
+    for p in pts:
+        if p.event is None:
+            ok_s = ok_s and float(p.phi) >= 0 and abs(((p.date - d0).total_seconds() / step) - round((p.date - d0).total_seconds() / step)) < 1e-6
+        elif p.event.info in ("AOS", "LOS"):
+            ok_e = ok_e and abs(float(p.phi)) < 1e-6
+        elif p.event.info == "MAX":
+            ok_m = ok_m and abs(float(p.phi_dot)) < 1e-7 and float(p.phi) > 0
+    c.ensure("samples_above_horizon_on_grid", ok_s)
+    c.ensure("aos_los_zero_elevation", ok_e)
+    c.ensure("max_zero_rate", ok_m)
+    # every above-horizon sample of a plain iteration is in the stream
+    plain = [o.copy(frame=sta, form="spherical") for o in orb.iter(start=d0, stop=d0 + timedelta(hours=14), step=timedelta(seconds=step))]
+    want = [o.date for o in plain if float(o.phi) >= 0]
+    got = [p.date for p in pts if p.event is None]
+    c.ensure("exactly_the_visible_samples", want == got)
+    infos = [p.event.info for p in pts if p.event is not None]
+    seq = "".join({"AOS": "A", "MAX": "M", "LOS": "L"}[i] for i in infos)
+    import re
+    c.ensure("pass_structure", re.fullmatch(r"(M?L)?(AML)*(AM?)?", seq) is not None)
+
+
+def _grid_light(tier, rng):
+    """ISS-like and Molniya orbits, sampling steps {60 s, 300 s}, umbra and penumbra listeners"""
+    for o in (0, 1):
+        for st in (60.0, 300.0):
+            for typ in (0, 1):
+                yield {"orbit": o, "step": st, "type": typ}
+
+
+def _shadow(r_sat, r_sun, Rs=6.957e8, Re=6378136.3):
+    """independent conical shadow model: returns (in_umbra, in_penumbra)"""
+    s = np.asarray(r_sun, dtype=float)
+    x = np.asarray(r_sat, dtype=float)
+    d = np.linalg.norm(s)
+    u = -s / d  # anti-sun axis
+    along = x @ u
+    if along <= 0:
+        return False, False
+    perp = np.linalg.norm(x - along * u)
+    a_umb = math.asin((Rs - Re) / d)
+    a_pen = math.asin((Rs + Re) / d)
+    umb = perp <= (Re / math.sin(a_umb) - along) * math.tan(a_umb)
+    pen = perp <= (Re / math.sin(a_pen) + along) * math.tan(a_pen)
+    return bool(umb), bool(pen)
+
+
+@contract("C10", "light", funcs=[f"{LI}:LightListener.__call__", f"{LI}:LightListener.info"], grid=_grid_light, level="bounded")
+def _(c):
+    """bounded: umbra (penumbra) entry / exit events agree with an independent conical-shadow computation: the independent
+    model changes state within 0.01 s (0.5 s) of each event, and labels are entries iff going dark"""
+    from beyond.dates import timedelta
+    from beyond.propagators.listeners import LightListener
+    from beyond.env.solarsystem import get_body
+    kind = ["iss", "molniya"][c.integer("orbit")]
+    typ = ["umbra", "penumbra"][c.integer("type")]
+    src, orb, d0, T = _mk_orbit(kind, "kepler")
+    sun = get_body("Sun")
+    tol = 0.01 if typ == "umbra" else 0.5
+    evs = [o for o in orb.iter(start=d0, stop=d0 + timedelta(seconds=1.5 * T), step=timedelta(seconds=c.real("step")), listeners=[LightListener(typ)]) if o.event]
+
+    def state(t):
+        o = orb.propagate(t)
+        sp = np.asarray(sun.propagate(t).copy(frame="EME2000", form="cartesian")[:3], dtype=float)
+        return _shadow(np.asarray(o[:3], dtype=float), sp)[0 if typ == "umbra" else 1]
+    ok_t, ok_l = True, True
+    for e in evs:
+        before, after = state(e.date - timedelta(seconds=tol)), state(e.date + timedelta(seconds=tol))
+        ok_t = ok_t and before != after
+        ok_l = ok_l and (("entry" in e.event.info) == (after and not before))
+    c.ensure("events_exist", len(evs) >= 1 if kind == "iss" else True)
+    c.ensure("agrees_with_independent_cone", ok_t)
+    c.ensure("label", ok_l)
